@@ -7,6 +7,7 @@ import (
 	"os"
 	"sync/atomic"
 
+	"github.com/emirpasic/gods/v2/lists/arraylist"
 	"github.com/emirpasic/gods/v2/queues/priorityqueue"
 	"github.com/emirpasic/gods/v2/trees/binaryheap"
 	"github.com/emirpasic/gods/v2/trees/btree"
@@ -90,6 +91,10 @@ func (w *hostileWorld) Gen(seed uint64, tier string) *Plan {
 			p.Ops = append(p.Ops, Op{ID: id, N: "ExtremeConfig", A: []int{r.Intn(1000)}})
 			continue
 		}
+		if r.P(1, 40000) {
+			p.Ops = append(p.Ops, Op{ID: id, N: "HugeAdd", A: []int{r.Intn(1000)}})
+			continue
+		}
 		switch r.Weighted(30, 6, 3, 1) {
 		case 0:
 			p.Ops = append(p.Ops, s.GenHostile(r, id))
@@ -146,6 +151,10 @@ func (w *hostileWorld) Exec(p *Plan, st *RunStats) *Violation {
 				loadVariant(s, op.A[0], op.B)
 			case op.N == "Fresh":
 				s = s.Fresh()
+			case op.N == "HugeAdd":
+				o.cur = op
+				hugeAddProbe(o, op.A[0])
+				o.Kind = p.Cfg.Kind
 			case op.N == "ExtremeConfig":
 				o.cur = op
 				extremeConfigProbe(o, op.A[0])
@@ -285,5 +294,27 @@ func extremeConfigProbe(o *Oracle, salt int) {
 			o.Fail("C17", "comparator-entered-concurrently", "%s with %d elements: the caller's comparator was entered %d times while another call of it was still running - the library calls it from several goroutines, and a comparator that is not re-entrant (nothing says it must be) makes the operation crash or answer wrongly", kind, n, k)
 			return
 		}
+	}
+}
+
+// hugeAddProbe (C17): one variadic call with more than 2^24 values (beyond the integers a float32 represents
+// exactly: growth arithmetic done in float32 goes wrong there and nowhere below). Elements of one byte and of no
+// bytes keep it cheap.
+func hugeAddProbe(o *Oracle, salt int) {
+	n := 1<<24 + 1 + 2*(salt%3)
+	o.Kind = "arraylist"
+	l := arraylist.New[int8](1, 2, 3)
+	opSteps = 0
+	l.Add(make([]int8, n)...)
+	opSteps = 0
+	if v, ok := l.Get(n + 2); l.Size() != n+3 || !ok || v != 0 {
+		o.Fail("C17", "huge-add", "an ArrayList[int8] of 3 elements after Add of %d values: Size()=%d, Get(%d)=(%d,%v)", n, l.Size(), n+2, v, ok)
+		return
+	}
+	z := arraylist.New[struct{}]()
+	z.Add(make([]struct{}, n)...)
+	opSteps = 0
+	if z.Size() != n {
+		o.Fail("C17", "huge-add", "an ArrayList[struct{}] after Add of %d values: Size()=%d", n, z.Size())
 	}
 }
